@@ -115,6 +115,14 @@ def bad_fh(steps, fault, kind="list"):
             return pd.Index(np.array([dup[-1]] + dup[:-1], dtype="int64"))
         return dup
     if fault == "empty":
+        # no steps at all, in every container a horizon may come in (a ForecastingHorizon object
+        # may be empty when it is made; handing it to an estimator or splitter is refused)
+        if kind == "array":
+            return np.array([], dtype="int64")
+        if kind == "index_sorted":
+            return pd.Index(np.array([], dtype="int64"))
+        if kind == "index_unsorted":
+            return ForecastingHorizon(np.array([], dtype="int64"))
         return []
     if fault == "fractional":
         return [float(s) + 0.5 for s in steps]
@@ -563,7 +571,7 @@ def enum_table(tier):
     for w, fl, dk in itertools.product(["constructor", "fit", "predict", "splitter", "tts"],
                                        ["duplicate", "empty", "fractional", "string", "float_scalar", "tuple", "set"],
                                        ["list", "array", "index_sorted", "index_unsorted"]):
-        if fl != "duplicate" and dk != "list":
+        if fl not in ("duplicate", "empty") and dk != "list":
             continue
         for f in (fc if w in ("fit", "predict") else fc[:1]):
             table.append({"pair": "fh_fault", "where": w, "forecaster": f, "fault": fl, "dup_kind": dk})
